@@ -9,7 +9,15 @@ fn main() {
     let a: Vec<String> = std::env::args().skip(1).collect();
     let vectors = read_lines(&a[0]);
     let mut tr = Trace::create(&a[1]);
-    for v in vectors {
+    // The conversions are pure functions: the same calls are made in three different orders
+    // (as generated, reversed, alternating from both ends) so that a result depending on earlier
+    // calls (a cache, a remembered week) shows up as a wrong value in one of the passes.
+    let n = vectors.len();
+    let mut order: Vec<usize> = (0..n).collect();
+    order.extend((0..n).rev());
+    order.extend((0..n).map(|k| if k % 2 == 0 { k / 2 } else { n - 1 - k / 2 }));
+    for idx in order {
+        let v = &vectors[idx];
         match v["e"].as_str().unwrap() {
             "tod" => {
                 let s = v["s"].as_u64().unwrap();
